@@ -11,6 +11,7 @@ import (
 	"crypto/sha256"
 	"encoding/binary"
 	"fmt"
+	"io"
 	"sort"
 	"sync"
 	"testing"
@@ -24,6 +25,7 @@ import (
 	nullmetrics "github.com/attestantio/vouch/services/metrics/null"
 	"github.com/google/uuid"
 	"github.com/rs/zerolog"
+	zerologger "github.com/rs/zerolog/log"
 	e2types "github.com/wealdtech/go-eth2-types/v2"
 	e2wtypes "github.com/wealdtech/go-eth2-wallet-types/v2"
 	"pgregory.net/rapid"
@@ -84,7 +86,9 @@ type Case struct {
 	// signing request for two or more accounts fails as a whole, single-account requests
 	// succeed) | "single-error" (only single-account requests fail) | "all-error".
 	// Zero signatures are scripted per validator (Skip "zerosig").
-	SignFault  string `json:"sign_fault,omitempty"`
+	SignFault string `json:"sign_fault,omitempty"`
+	// LogLevel of the attester service: "" (disabled) | "info" | "debug" | "trace".
+	LogLevel   string `json:"log_level,omitempty"`
 	SourceBack uint64 `json:"source_back"` // source epoch = target epoch - min(SourceBack, target)
 	RootSeed   uint64 `json:"root_seed"`
 }
@@ -367,6 +371,37 @@ func (s specProvider) Spec(context.Context, *api.SpecOpts) (*api.Response[map[st
 }
 
 // ---------------------------------------------------------------------------
+// Logging: vouch's services take their logger from the zerolog global logger;
+// it writes to io.Discard in this process, and the level is drawn per case so
+// that code inside "if e := log.Trace(); e.Enabled()" guards really executes.
+
+func init() { zerologger.Logger = zerolog.New(io.Discard) }
+
+func levelOf(s string) zerolog.Level {
+	switch s {
+	case "trace":
+		return zerolog.TraceLevel
+	case "debug":
+		return zerolog.DebugLevel
+	case "info":
+		return zerolog.InfoLevel
+	}
+	return zerolog.Disabled
+}
+
+// useLogLevel sets zerolog's global level for the case (cases of one process run
+// one after the other) and returns the level for WithLogLevel and a restore func.
+func useLogLevel(s string) (zerolog.Level, func()) {
+	lvl := levelOf(s)
+	zerolog.SetGlobalLevel(lvl)
+	return lvl, func() { zerolog.SetGlobalLevel(zerolog.Disabled) }
+}
+
+func genLogLevel(t *rapid.T) string {
+	return rapid.SampledFrom([]string{"", "", "info", "debug", "trace", "trace"}).Draw(t, "logLevel")
+}
+
+// ---------------------------------------------------------------------------
 // Generator
 
 func seedRoot(seed uint64, tag byte) phase0.Root {
@@ -539,6 +574,7 @@ func genCase(t *rapid.T) Case {
 		usedV[v] = true
 		c.OtherAccounts = append(c.OtherAccounts, v)
 	}
+	c.LogLevel = genLogLevel(t)
 	c.SignFault = rapid.SampledFrom([]string{"", "", "", "", "", "", "batch-error", "batch-error", "single-error", "all-error"}).Draw(t, "signFault")
 	c.AccountsFault = rapid.SampledFrom([]string{"", "", "", "", "", "", "by-index", "by-index", "for-epoch", "both"}).Draw(t, "accountsFault")
 	return c
@@ -793,7 +829,8 @@ type stats struct {
 }
 
 func runAndJudge(c *Case) (harness string, js []callJudgement, st stats) {
-	zerolog.SetGlobalLevel(zerolog.Disabled)
+	lvl, restoreLog := useLogLevel(c.LogLevel)
+	defer restoreLog()
 	ctx, cancel := context.WithCancel(context.Background())
 	defer cancel()
 
@@ -845,7 +882,7 @@ func runAndJudge(c *Case) (harness string, js []callJudgement, st stats) {
 	sub := &submitter{}
 	dp := &dataProvider{bySlot: map[uint64]*phase0.AttestationData{}}
 	svc, err := standardattester.New(ctx,
-		standardattester.WithLogLevel(zerolog.Disabled),
+		standardattester.WithLogLevel(lvl),
 		standardattester.WithProcessConcurrency(2),
 		standardattester.WithMonitor(nullmetrics.New()),
 		standardattester.WithChainTime(clock),
@@ -1064,6 +1101,7 @@ func check(t ev.TB, c *Case) {
 	if st.multi {
 		labels = append(labels, "several-committees")
 	}
+	labels = append(labels, "log-level-"+levelOf(c.LogLevel).String())
 	if c.SignFault != "" {
 		labels = append(labels, "sign-fault-"+c.SignFault)
 	}
